@@ -33,6 +33,7 @@ class Walk(object):
         self.obj = dict((d['Obj_ID'], d) for d in t['O_OBJ'])
         self.pkg = set(d['Package_ID'] for d in t['EP_PKG'])
         self.comp = dict((d['Id'], d) for d in t['C_C'])
+        self.dangling = []      # O_REF rows without their O_RTIDA / O_OIDA / O_RATTR row (model outside the domain)
 
     # ---- containment (R8000 package contains element, R8003 component contains element) ----
     def containers(self, elem_id):
@@ -143,11 +144,21 @@ class Walk(object):
 
     # ---- relationships ----
     def keys(self, rel_id, rgo_oir, rto_oir):
+        """Modeled [referential attribute, identifying attribute] pairs of one formalization: every O_REF row of the
+        relationship between the referring (R_RGO) and the referred-to (R_RTO) class-in-relationship names the referential
+        attribute (R108: O_RATTR/O_ATTR Attr_ID, Obj_ID) and the identifying attribute it refers to (R111: the O_RTIDA row
+        RAttr_ID, RObj_ID, ROid_ID of the relationship, which R110 is the O_OIDA row of that identifier)."""
         pairs = []
         for d in self.t['O_REF']:
             if d['Rel_ID'] == rel_id and d['OIR_ID'] == rgo_oir and d['ROIR_ID'] == rto_oir:
+                rtida = self.t.where('O_RTIDA', Attr_ID=d['RAttr_ID'], Obj_ID=d['RObj_ID'], Oid_ID=d['ROid_ID'], Rel_ID=rel_id,
+                                     OIR_ID=rto_oir)
+                oida = self.t.where('O_OIDA', Attr_ID=d['RAttr_ID'], Obj_ID=d['RObj_ID'], Oid_ID=d['ROid_ID'])
+                if len(rtida) != 1 or len(oida) != 1 or (d['Attr_ID'], d['Obj_ID']) not in self.rattr:
+                    self.dangling.append(['O_REF', d['Attr_ID'], d['RAttr_ID']])
+                    continue
                 ref = self.attr[(d['Attr_ID'], d['Obj_ID'])]['Name']
-                ident = self.attr[(d['RAttr_ID'], d['RObj_ID'])]['Name']
+                ident = self.attr[(oida[0]['Attr_ID'], oida[0]['Obj_ID'])]['Name']
                 pairs.append([ref, ident])
         return sorted(pairs)
 
@@ -189,6 +200,13 @@ class Walk(object):
 
 def describe(rows, comp_name=None, derived=False):
     return Walk(rows).describe(comp_name, derived)
+
+
+def describe2(rows, comp_name=None, derived=False):
+    """(description, well formed: every O_REF row has its O_RTIDA, O_OIDA and O_RATTR rows)."""
+    w = Walk(rows)
+    d = w.describe(comp_name, derived)
+    return d, not w.dangling
 
 
 # ------------------------------------------------------------------ reading what the code produced ------------------
